@@ -54,9 +54,18 @@ type Contract struct {
 	Calls     map[string]*Contract // `call <param>[.<method>] requires|ensures|modifies …`: contract of a function-typed parameter or of a method of an interface-typed parameter, as seen by this function
 	ParamInv  []Clause // `invariant e`: required at entry, ensured at exit, maintained by every loop
 	Schema    bool     // instantiated from a schema: clauses that do not resolve for this function are dropped
+	AtLine    []LineCut // `assert at <line> e`: proved, then assumed, when control reaches the statement that starts on that source line
+	AtReturn  []Clause // `assert return e`: e (may mention local variables: their value when the function returns) is proved at every return
 	View      string   // `view <name>`: an additional specification of the function, kept apart from its primary contract: it is used (and proved) only in the verification context "view:<name>" (props: ctx), see load.go
 	File      string
 	Line      int
+}
+
+// LineCut is a proof cut anchored at a source line of the function (generated contracts of generated code: the line of a
+// top-level statement). Local variables denote their current values (track.go).
+type LineCut struct {
+	Line int
+	C    Clause
 }
 
 type Hint struct {
@@ -386,13 +395,40 @@ func parseContractText(lines []string, lineNos []int, file, pkgPath string) (*Co
 		case "assert":
 			// assert before <callee>@<k> <expr>
 			f := strings.Fields(text)
+			if len(f) >= 3 && f[0] == "at" {
+				// assert at <line> <expr>
+				ln, err := strconv.Atoi(f[1])
+				if err != nil {
+					return fmt.Errorf("%s:%d: expected `assert at <line> <expr>`", file, p.line)
+				}
+				rest := strings.TrimSpace(text[strings.Index(text, f[1])+len(f[1]):])
+				c, err := parseClause(rest, file, p.line)
+				if err != nil {
+					return err
+				}
+				cur.AtLine = append(cur.AtLine, LineCut{Line: ln, C: c})
+				break
+			}
+			if len(f) >= 2 && f[0] == "return" {
+				// assert return <expr>: proved at every return statement; local variables denote their final values
+				c, err := parseClause(strings.TrimSpace(text[strings.Index(text, "return")+len("return"):]), file, p.line)
+				if err != nil {
+					return err
+				}
+				cur.AtReturn = append(cur.AtReturn, c)
+				break
+			}
 			if len(f) < 3 || f[0] != "before" {
 				return fmt.Errorf("%s:%d: expected `assert before <callee>@<k> <expr>`", file, p.line)
 			}
 			ck := strings.SplitN(f[1], "@", 2)
 			k := 1
 			if len(ck) == 2 {
-				k, _ = strconv.Atoi(ck[1])
+				if ck[1] == "*" {
+					k = -1 // every call of <callee> (schematic contracts: the number of call sites differs per function)
+				} else {
+					k, _ = strconv.Atoi(ck[1])
+				}
 			}
 			rest := strings.TrimSpace(text[strings.Index(text, f[1])+len(f[1]):])
 			var uses []string
